@@ -397,15 +397,21 @@ class Disconnect(Contract):
                  "canopen.network:Network.check")
     props = ("C17",)
     cases = {"%d%d%d%d" % (a, b, c, d): (a, b, c, d) for a in (0, 1) for b in (0, 1) for c in (0, 1) for d in (0, 1)}
+    # thorough: 3 nodes x 3 maps and 1 node x 4 maps / 4 nodes x 1 map in a selection of running / idle patterns
+    cases_thorough = {"3x3-%03x" % pat: ((3, 3), tuple((pat >> i) & 1 for i in range(9)))
+                      for pat in (0x000, 0x1FF, 0x155, 0x0AA, 0x007, 0x1C0, 0x049, 0x111, 0x010, 0x0EF)}
+    cases_thorough.update({"1x4-%x" % pat: ((1, 4), tuple((pat >> i) & 1 for i in range(4))) for pat in range(16)})
+    cases_thorough.update({"4x1-%x" % pat: ((4, 1), tuple((pat >> i) & 1 for i in range(4))) for pat in range(16)})
 
     def setup(self, w, case):
         net = mk_net(w, bus=w.obj("env.stubs:BusStubShutdown"))
         initial = []
         nodes = {}
         k = 0
-        for n in range(2):
+        (n_nodes, n_maps), case = case if isinstance(case[0], tuple) else ((2, 2), case)
+        for n in range(n_nodes):
             maps = {}
-            for m in range(2):
+            for m in range(n_maps):
                 old = None
                 if case[k]:
                     old, t0 = mk_running(w, net, 0x180 + 0x100 * m + n + 1, [0], 0.5)
